@@ -50,5 +50,9 @@ PGoStringOK(out, m) == /\ TriplesOf(out) = m                   \* every pair wit
                        /\ Len(out) = Cardinality(m)            \* exactly once
                        /\ StrictlyAscending(out)
 
+\* beyond the listed properties: Get panics exactly on a missing pair; the names of the three steps (any other value panics)
+PGet(m, x, y) == IF HasKey(m, x, y) THEN [panic |-> FALSE, v |-> Get(m, x, y)] ELSE [panic |-> TRUE, v |-> ""]
+StepName(s) == CASE s = 1 -> "match" [] s = 2 -> "deletion" [] s = 3 -> "insertion" [] OTHER -> ""
+
 IGoString(m) == SetToSortSeq(m, LAMBDA t, u : KeyLess(KeyOf(t), KeyOf(u)))
 =============================================================================
